@@ -1,0 +1,38 @@
+//go:build verif
+
+// Contracts for package acr, checked by /verif (govc). Comments only;
+// compiled only with -tags verif; adds no code.
+
+package acr
+
+// ---------------------------------------------------------------------------
+// Parsimony (property C12): the code computes the Fitch/Hartigan recurrence
+// ---------------------------------------------------------------------------
+
+//@ func acr.computeParsimony
+//@   requires len(currentStates) >= len(neighborStates)
+//@   requires neighborStates == currentStates || arr(neighborStates) != arr(currentStates)
+//@   requires forall k int :: {neighborStates[k]} 0 <= k && k < len(neighborStates) ==> neighborStates[k] >= 0.0
+//@   assigns elems(currentStates)
+//@   ensures [indicator_of_the_maxima] forall k int :: {currentStates[k]} 0 <= k && k < len(neighborStates) ==> (currentStates[k] == 1.0 || currentStates[k] == 0.0) && (currentStates[k] == 1.0 <==> (forall j int :: {old(neighborStates[j])} 0 <= j && j < len(neighborStates) ==> old(neighborStates[j]) <= old(neighborStates[k])))
+//@   loop 1
+//@     invariant [running_max_bounds_scanned_prefix] max >= 0.0 && (forall j int :: {neighborStates[j]} 0 <= j && j <= rangeindex ==> neighborStates[j] <= max)
+//@     invariant [running_max_is_attained_or_zero] max == 0.0 || (exists j int :: {neighborStates[j]} 0 <= j && j <= rangeindex && neighborStates[j] == max)
+//@   loop 2
+//@     assigns elems(currentStates)
+//@     invariant [max_bounds_all] forall j int :: {old(neighborStates[j])} 0 <= j && j < len(neighborStates) ==> old(neighborStates[j]) <= max
+//@     invariant [max_attained_or_zero] max == 0.0 || (exists j int :: {old(neighborStates[j])} 0 <= j && j < len(neighborStates) && old(neighborStates[j]) == max)
+//@     invariant [unread_part_untouched] forall j int :: {neighborStates[j]} rangeindex < j && j < len(neighborStates) ==> neighborStates[j] == old(neighborStates[j])
+//@     invariant [done_prefix] forall k int :: {currentStates[k]} 0 <= k && k <= rangeindex ==> (currentStates[k] == 1.0 || currentStates[k] == 0.0) && (currentStates[k] == 1.0 <==> old(neighborStates[k]) == max)
+
+//@ func acr.parsimonyUPPASS
+//@   flag noframe
+//@   requires cur != nil
+//@   requires forall i int :: {cur.neigh[i]} 0 <= i && i < len(cur.neigh) ==> cur.neigh[i] != nil
+//@   ensures [a_tip_costs_no_step] len(old(cur.neigh)) == 1 && err == nil ==> nsteps == 0
+//@   call acr.parsimonyUPPASS [recursion_goes_to_the_children_only] a0 == child && a0 != prev && a1 == cur && a3 == states
+//@   loop 1
+//@     step [parent_side_adds_nothing] child == prev ==> next(nsteps) == nsteps
+//@     step [steps_of_each_child_added_once] child != prev ==> next(nsteps) == nsteps + tempsteps
+//@   loop 5
+//@     step [one_step_per_child_lacking_the_kept_state] next(nsteps) == nsteps + (child != prev && states[child.id][maxState] == 0.0 ? 1 : 0)
